@@ -207,10 +207,15 @@ def case_class(js, got):
     return f'{"+".join(kinds) or "other"}|list={src}|pos={POS_NAMES[c["pos"]]}'
 
 
+_SHARED = {}          # verdicts of the shared TLC pass over B2 + B3 + corrupted traces
+
+
 def judge(traces, chk, tag):
+    if traces and all(t['name'] in _SHARED for t in traces):
+        return {t['name']: _SHARED[t['name']] for t in traces}
     verdicts = {}
-    for lo in range(0, len(traces), 3000):
-        batch = traces[lo:lo + 3000]
+    for lo in range(0, len(traces), 6000):
+        batch = traces[lo:lo + 6000]
         res = tlc.run('Trace_AmpSelection', extra_files={'trace.ndjson': U.ndjson(batch)},
                       env={'TRACE_FILE': 'trace.ndjson'}, workers=1, timeout=1800, tag=f'c10-{tag}')
         if not res.ok:
@@ -225,7 +230,7 @@ def judge(traces, chk, tag):
     return verdicts
 
 
-def selfcheck_monitor(traces, chk):
+def corrupted_traces(traces):
     """corrupted copies of conforming traces must be rejected with the right clause"""
     import copy
     base = None
@@ -236,16 +241,16 @@ def selfcheck_monitor(traces, chk):
                 base, other = t, others[0]
                 break
     if base is None:
-        return
+        return []
     muts = []
     m = copy.deepcopy(base); m['name'] = 'corrupt-choice'; m['chosen'] = other['id']; muts.append((m, 'ChosenPermitted'))
     m = copy.deepcopy(base); m['name'] = 'corrupt-band'
     m['lib'][base['chosen']]['fmin'] = base['c']['bfmin'] + 100000; muts.append((m, 'CoversBand'))
-    res = tlc.run('Trace_AmpSelection', extra_files={'trace.ndjson': U.ndjson([x for x, _ in muts])},
-                  env={'TRACE_FILE': 'trace.ndjson'}, workers=1, timeout=600, tag='c10-selfcheck')
-    if not res.ok:
-        raise Machinery(f'monitor self-check run failed: {res.error}')
-    got = {v['name']: {c for _, c in v['viol']} for v in res.emitted}
+    return muts
+
+
+def check_corrupted(muts, chk):
+    got = {m['name']: {c for _, c in judge([m], chk, 'selfcheck')[m['name']]['viol']} for m, _ in muts}
     for m, clause in muts:
         if clause not in got.get(m['name'], set()):
             raise Machinery(f'Trace_AmpSelection accepted a corrupted trace ({m["name"]}: expected {clause}, got {got.get(m["name"])})')
@@ -291,7 +296,7 @@ def multiband_scenarios(eq):
         yield f'operator-type={t}', multiband_line(operator_type=t)
 
 
-def run_b3(chk):
+def collect_b3(chk):
     traces, ctxs = [], {}
     for name, topo, eqf, extra, tier in U.SHIPPED:
         if tier == 'thorough' and chk.tier == 'quick':
@@ -361,6 +366,10 @@ def run_b3(chk):
             traces += tr
             ctxs.update({c['name']: c for c in cx})
     chk.cov['b3_multiband_scenarios_refused'] = refusals
+    return traces, ctxs
+
+
+def finish_b3(chk, traces, ctxs):
     verdicts = judge(traces, chk, 'b3')
     ok = 0
     for t in traces:
@@ -477,6 +486,11 @@ def run(chk):
         raise Machinery(f'vacuous replay set: {exercised}')
     for js, got, err, tag in mism:
         chk.violation(f'B2|{case_class(js, got)}', dict(case=describe(js), chosen=got, exception=err, trace=tag))
+    # ONE TLC pass judges the replayed cases (B2), the recorded selections of the corpus (B3) and the corrupted copies
+    b3_traces, b3_ctx = collect_b3(chk)
+    muts = corrupted_traces(b3_traces + b2_traces)
+    _SHARED.clear()
+    _SHARED.update(judge(b2_traces + b3_traces + [m for m, _ in muts], chk, 'traces'))
     verdicts = judge(b2_traces, chk, 'b2')
     named = {tag for _, _, _, tag in mism}
     ok = 0
@@ -503,8 +517,8 @@ def run(chk):
     chk.cov['b2_open_min_gain_cases_unjudged'] = n_open
     chk.cov['b2_variable_gain_twins_judged_by_trace'] = n_vg
     chk.cov['b2_clauses_exercised'] = exercised
-    b3 = run_b3(chk)
-    selfcheck_monitor(b3 + b2_traces, chk)
+    b3 = finish_b3(chk, b3_traces, b3_ctx)
+    check_corrupted(muts, chk)
     chk.cov['tolerance_trace_udb'] = dict(Margin=10, TolNF=10)
     chk.cov['rule'] = ('B2: one case = (library, required gain, position, fibre, own list, ROADM list) emitted by TLC, distinct '
                        'by that key, non-trivial when at least one permitted model is capable; B3: one case = one '
@@ -584,3 +598,8 @@ MUTANTS = {'rank_max_nf': _mut_rank_max_nf, 'nf_rank_coarse': _mut_nf_rank_coars
            'select_power_after_voa': _mut_select_power_after_voa, 'fused_keeps_prev': _mut_fused_keeps_prev, 'precedence': _mut_precedence,
            'band_filter_dropped': _mut_band_filter_dropped, 'raman_always': _mut_raman_always,
            'power_per_channel': _mut_power_per_channel, 'own_list_ignored': _mut_preamp_list_first}
+
+
+def run_b3(chk):
+    """B3 alone (collect + judge), kept for interactive use"""
+    return finish_b3(chk, *collect_b3(chk))
